@@ -157,6 +157,20 @@ func main() {
 			}
 		}
 	}
+	// signatures over the EMPTY blob (a reader-based descriptor generator that is asked twice yields exactly this descriptor)
+	for _, f := range lib.Formats {
+		for _, sg := range []struct {
+			n string
+			e *lib.Ent
+		}{{"good", good}, {"good384", good384}, {"rsa", goodRSA}} {
+			for _, alg := range []digest.Algorithm{digest.SHA256, digest.SHA384, digest.SHA512} {
+				for _, mt := range []string{artA.Desc.MediaType, ""} {
+					d := ocispec.Descriptor{MediaType: mt, Digest: alg.FromBytes(nil), Size: 0}
+					pool = append(pool, env{fmt.Sprintf("fresh-empty-blob|%s|%s|%s|mt=%q", f, sg.n, alg, mt), f, lib.MustCoreSign(lib.SignSpec{Format: f, Payload: lib.Payload(d), Signer: sg.e})})
+				}
+			}
+		}
+	}
 	nFresh := len(pool)
 	// re-assembly
 	rngR := r.Rand("reassemble")
@@ -243,7 +257,7 @@ func main() {
 		Trusting bool
 	}
 	levels := lib.AllLevelMaps()
-	presentsOCI := []string{"A", "B", "A-digest", "A-size", "A-mediaType", "A-annotations"}
+	presentsOCI := []string{"A", "B", "A-digest", "A-size", "A-mediaType", "A-mediaType-empty", "A-annotations"}
 	presentsBlob := []string{"A", "B", "A-byte", "A-length", "A-mt-unstated", "A-mt-different", "A-mt-different-B"}
 	metaReqs := []string{"none", "subset", "exact", "value-changed", "extra-key", "empty-value-missing-key", "none", "none"}
 	var cases []caseT
@@ -312,6 +326,8 @@ func main() {
 			presented.Size++
 		case "A-mediaType":
 			presented.MediaType = ocispec.MediaTypeImageIndex
+		case "A-mediaType-empty":
+			presented.MediaType = "" // e.g. a descriptor a caller builds from digest and size only: the media type still has to match
 		case "A-annotations":
 			presented.Annotations = map[string]string{"other": "annotation"}
 		case "A-byte":
